@@ -47,4 +47,10 @@ PROPS = {
             'mc': _mc({'module': 'MC_Stream', 'cfg': 'MC_Stream', 'tier': 'both', 'actions': ['Send', 'DoDeliver', 'TryDecode']},
                       {'module': 'MC_Stream', 'cfg': 'MC_Stream_3', 'tier': 'thorough'}),
             'gen': s2c.gen_stream},
+    'C10': {'rule': 'EncodeValue / EncodeArg / RoundTrip events with out-of-range, wrong-typed and boundary values at every '
+                    'encoder entry point; non-trivial = every event; the clause only applies when the encoder did not raise'},
+    'C12': {'rule': 'every value encoded twice with deep snapshots before/after (order included); equal-content tables in '
+                    'different insertion orders (SameBytes); all frame kinds'},
+    'C15': {'rule': 'SetTZ(z) then encode/decode of naive, aware and struct_time instants (DST transition hours +-1 s) in-process '
+                    'and in fresh interpreters started with TZ=z; the specification never reads the zone'},
 }
